@@ -19,6 +19,7 @@ import (
 	"github.com/Dash-Industry-Forum/livesim2/cmd/livesim2/app"
 	"pgregory.net/rapid"
 	"verifharness/internal/hx"
+	"verifharness/internal/ls"
 )
 
 func init() {
@@ -66,7 +67,11 @@ func genSeq(t *rapid.T) SeqCase {
 			IP: rapid.SampledFrom(ips).Draw(t, "opip")}
 		// time advance clustered around the interval boundary; exact equality with the boundary is avoided
 		// by construction for the *accumulated* time since the last reset (see checkSeq), not here.
-		switch rapid.SampledFrom([]string{"zero", "small", "near", "multi", "big"}).Draw(t, "dtkind") {
+		switch rapid.SampledFrom([]string{"zero", "small", "near", "multi", "big", "back"}).Draw(t, "dtkind") {
+		case "back":
+			// a request stamped slightly before the previous one: concurrent requests take their timestamp before they
+			// enter the limiter and may enter it in the opposite order. An older stamp restarts nothing.
+			op.DtNs = -int64(rapid.IntRange(1, 1000).Draw(t, "back"))
 		case "zero":
 			op.DtNs = 0
 		case "small":
@@ -575,4 +580,108 @@ func TestC20ReadersVsRestart(t *testing.T) {
 	wg.Wait()
 	run.Eval("race:reqcount-vs-requests")
 	run.Note("http_requests_in_race_phase", n.Load())
+}
+
+// ---- the real server: one quota per address whatever limited route is used --------------------------------------
+
+type SrvCase struct {
+	Max      int      `json:"max"`
+	Addrs    []string `json:"addrs"`
+	Requests []SrvReq `json:"requests"`
+}
+
+type SrvReq struct {
+	Addr  int    `json:"addr"`
+	Route string `json:"route"` // livesim2 | vod
+	XFF   bool   `json:"xff"`
+}
+
+func genSrv(t *rapid.T) SrvCase {
+	c := SrvCase{Max: rapid.IntRange(1, 6).Draw(t, "max")}
+	for i := rapid.IntRange(1, 3).Draw(t, "naddr"); i > 0; i-- {
+		c.Addrs = append(c.Addrs, rapid.SampledFrom([]string{"10.1.2.3", "10.1.2.4", "192.0.2.77", "2001:db8::17", "2001:db8::18"}).Draw(t, "addr"))
+	}
+	for i := rapid.IntRange(4, 30).Draw(t, "nreq"); i > 0; i-- {
+		c.Requests = append(c.Requests, SrvReq{Addr: rapid.IntRange(0, len(c.Addrs)-1).Draw(t, "a"), Route: rapid.SampledFrom([]string{"livesim2", "vod"}).Draw(t, "route"), XFF: rapid.Bool().Draw(t, "xff")})
+	}
+	return c
+}
+
+func checkSrv(c SrvCase) (*hx.Violation, int) {
+	srv, err := ls.New(ls.BundledRoot, func(sc *app.ServerConfig) { sc.MaxRequests, sc.ReqLimitInt = c.Max, 3600 })
+	if err != nil {
+		return hx.V("harness", "%v", err), 0
+	}
+	count := map[string]int{}
+	over := 0
+	for i, rq := range c.Requests {
+		addr := c.Addrs[rq.Addr]
+		url := "/livesim2/testpic_2s/Manifest.mpd?nowMS=100000"
+		if rq.Route == "vod" {
+			url = "/vod/testpic_2s/Manifest.mpd"
+		}
+		req := httptest.NewRequest("GET", url, nil)
+		if rq.XFF {
+			req.RemoteAddr = "203.0.113.9:4711"
+			req.Header.Set("X-Forwarded-For", addr)
+		} else if strings.Contains(addr, ":") {
+			req.RemoteAddr = "[" + addr + "]:4711"
+		} else {
+			req.RemoteAddr = addr + ":4711"
+		}
+		// the limiter keys on the forwarded address if present, else on the peer address: both name the client addr
+		key := addr
+		rr := httptest.NewRecorder()
+		srv.S.Router.ServeHTTP(rr, req)
+		count[key]++
+		want := 200
+		if count[key] > c.Max {
+			want = 429
+			over++
+		}
+		if rr.Code != want {
+			return hx.V("server-quota", "request %d (%s via /%s, forwarded=%v) is request %d of that address in the interval with max %d: status %d, expected %d", i, addr, rq.Route, rq.XFF, count[key], c.Max, rr.Code, want), over
+		}
+		hdr := rr.Header().Get("Livesim2-Requests")
+		if !strings.HasPrefix(hdr, fmt.Sprintf("%d ", count[key])) {
+			return hx.V("server-quota-header", "request %d (%s via /%s): header %q, expected counter %d", i, addr, rq.Route, hdr, count[key]), over
+		}
+	}
+	return nil, over
+}
+
+func TestC20Server(t *testing.T) {
+	run := hx.Start(t, "C20")
+	defer run.Finish()
+	if run.Replaying() {
+		if run.ReplayTest() != t.Name() {
+			return
+		}
+		var c SrvCase
+		run.ReplayCase(&c)
+		if v, _ := checkSrv(c); v != nil {
+			run.Fail(t, c, v)
+		}
+		return
+	}
+	run.Rapid(t, 5, 25, 150, func(rt *rapid.T) {
+		c := genSrv(rt)
+		v, over := checkSrv(c)
+		cls := []string{"server"}
+		routes := map[string]bool{}
+		for _, r := range c.Requests {
+			routes[r.Route] = true
+		}
+		if len(routes) == 2 && over > 0 {
+			cls = append(cls, "server:both-routes-over-quota")
+			run.NonTrivial(c)
+		}
+		run.Eval(cls...)
+		if v != nil {
+			if v.Kind == "harness" {
+				rt.Fatalf("HARNESS: %s", v.Msg)
+			}
+			run.Fail(rt, c, v)
+		}
+	})
 }
